@@ -37,7 +37,7 @@ BUDGET = {'quick': (120, 16), 'thorough': (3000, 16)}
 OPS = ['fetch-body', 'fetch-body', 'fetch-peek', 'fetch-flags', 'store',
        'store', 'expunge', 'uidexpunge', 'copy', 'move', 'move', 'search',
        'check', 'noop', 'close', 'idle', 'append-other', 'append-self',
-       'copy-into', 'rfc822']
+       'copy-into', 'rfc822', 'copy-self', 'move-self']
 
 
 def strategy(tier: str) -> Any:
@@ -144,8 +144,9 @@ def _run(case: dict[str, Any], with_program: bool,
                     selected = res.ok
                     continue
                 if op in ('fetch-body', 'rfc822'):
-                    item = b'(BODY[])' if op == 'fetch-body' else \
-                        b'(RFC822 BODY[TEXT])'
+                    item = [b'(BODY[])', b'(BINARY[])', b'(BODY[1])',
+                            b'(BODY[HEADER])'][d % 4] \
+                        if op == 'fetch-body' else b'(RFC822 RFC822.TEXT)'
                     res = e.command(pre + b'FETCH ' + ss + b' ' + item)
                     sent_nt = True
                 elif op == 'fetch-peek':
@@ -198,11 +199,21 @@ def _run(case: dict[str, Any], with_program: bool,
                 elif op == 'idle':
                     tag = e.next_tag()
                     r1 = e.raw_send(tag + b' IDLE\r\n')
-                    if r1.endswith(b'+ Idling.\r\n'):
+                    if b'+ Idling.\r\n' in r1:
                         e.raw_send(b'DONE\r\n', advance=1.5)
                 elif op == 'append-other':
                     m = make_message('x%d' % a)
                     res = e.command(b'APPEND Other {%d+}' % len(m), m)
+                elif op in ('copy-self', 'move-self'):
+                    # into the selected mailbox itself: legal for an EXAMINEd
+                    # ordinary mailbox (not generated), refused for a
+                    # backend-read-only one
+                    if mode != 'trash':
+                        continue
+                    word = b'COPY ' if op == 'copy-self' else b'MOVE '
+                    res = e.command(pre + word + ss + b' Trash')
+                    expect_no = True
+                    sent_nt = True
                 elif op in ('append-self', 'copy-into'):
                     if mode != 'trash':
                         continue
